@@ -12,7 +12,7 @@ use crate::exch::{ExchCfg, Gate, Menu, ServerMsg};
 use crate::exch_run::{replay_exchange, run_exchanges};
 use crate::refmodel::chunked::{encode, ChunkSpec};
 
-pub const RULE: &str = "codings by construction: chunks of size {1,2,3} x payload pattern {letters, starts with CRLF, ends with CR, starts with LF} x size spelling {plain, leading zero, extension}, last-chunk spelling {0,000,0;x}, 0..2 trailers, size lines of exactly 20 and 19 bytes (the decoder's documented limit), a 130-byte trailer line, trailer field names that look like a status line / last chunk / framing header (HTTP2-Settings, HTTP, 0, Content-Length, Transfer-Encoding), obs-text in quoted chunk-extension values and trailer values, the coding announced by Transfer-Encoding spellings {chunked, Chunked, 'gzip, chunked', 'chunked,', 'gzip,chunked, ,', ', chunked', 'chunked ,TAB'}, also as the answer to an HTTP/1.0 request, always followed by 'HTTP/1.1 2' which must stay unconsumed; quick: all 1-chunk codings and a pairwise-reduced family of 2-chunk codings, thorough: all codings of <=2 chunks and a reduced family of 3-chunk codings; plus single chunks of size 15,16,255,256,4095,4096 in lower/upper/mixed-case hex with and without leading zero. Per coding and boundary-stop {off,on} the COMPLETE graph over (dechunker state, consumed, arrived): 1-byte arrivals, read with buffers {0,1,2,3,4,large} at every window (large chunks: arrival cuts at every size-line/tail position and data end -1/0/+1/+2, buffers {0,size-1,size,size+1,large} and {1,4} up to 256). plus the same codings (up to 400 bytes) through Call::<RecvBody>::read under boundary stop {off,on} x arrivals {1, 5, all} x buffers {1,3,64}, with is_on_chunk_boundary() checked after every read (on the flow as well); plus interleaving: all 25 ordered pairs of five chunked responses decoded alternately on one thread (first i steps of one, j steps of the other, then each to its end, for every i, j) with 7-byte arrivals and 3-byte output buffers. distinct = distinct (coding, stop mode, final observation)";
+pub const RULE: &str = "codings by construction: chunks of size {1,2,3} x payload pattern {letters, starts with CRLF, ends with CR, starts with LF} x size spelling {plain, leading zero, extension}, last-chunk spelling {0,000,0;x}, 0..2 trailers, size lines of exactly 20 and 19 bytes (the decoder's documented limit), a 130-byte trailer line, trailer field names that look like a status line / last chunk / framing header (HTTP2-Settings, HTTP, 0, Content-Length, Transfer-Encoding), obs-text in quoted chunk-extension values and trailer values, the coding announced by Transfer-Encoding spellings {chunked, Chunked, 'gzip, chunked', 'chunked,', 'gzip,chunked, ,', ', chunked', 'chunked ,TAB'}, also as the answer to an HTTP/1.0 request and under statuses 203 / 205 / 404 (incl. a body of the last chunk only), always followed by 'HTTP/1.1 2' which must stay unconsumed; quick: all 1-chunk codings and a pairwise-reduced family of 2-chunk codings, thorough: all codings of <=2 chunks and a reduced family of 3-chunk codings; plus single chunks of size 15,16,255,256,4095,4096 in lower/upper/mixed-case hex with and without leading zero. Per coding and boundary-stop {off,on} the COMPLETE graph over (dechunker state, consumed, arrived): 1-byte arrivals, read with buffers {0,1,2,3,4,large} at every window (large chunks: arrival cuts at every size-line/tail position and data end -1/0/+1/+2, buffers {0,size-1,size,size+1,large} and {1,4} up to 256). plus the same codings (up to 400 bytes) through Call::<RecvBody>::read under boundary stop {off,on} x arrivals {1, 5, all} x buffers {1,3,64}, with is_on_chunk_boundary() checked after every read (on the flow as well); plus interleaving: all 25 ordered pairs of five chunked responses decoded alternately on one thread (first i steps of one, j steps of the other, then each to its end, for every i, j) with 7-byte arrivals and 3-byte output buffers. distinct = distinct (coding, stop mode, final observation)";
 
 const PATTERNS: [&[u8]; 4] = [b"abc", b"\r\nx", b"xy\r", b"\nzz"];
 
@@ -47,7 +47,12 @@ fn mk_coding_te(c: crate::refmodel::chunked::Coding, first_size: usize, stop: bo
 
 /// `req_ver`: the version of the REQUEST (the response is HTTP/1.1 and chunked whatever the request said).
 fn mk_coding_req(c: crate::refmodel::chunked::Coding, first_size: usize, stop: bool, menu_kind: u8, te: &str, req_ver: &str) -> Arc<ExchCfg> {
-    let msg = RespMsg { version: "1.1".into(), status: 200, reason: "OK".into(), fields: vec![("Transfer-Encoding".into(), te.as_bytes().to_vec())], body: RespBody::Chunked { coding: c.bytes.clone(), payload: c.payload.clone(), ranges: c.data_ranges.clone() } };
+    // (the status is no part of the coding: 205 and 404 answers are chunked like any other; encoded in req_ver as "1.1/205")
+    let (req_ver, status) = match req_ver.split_once('/') {
+        Some((v, st)) => (v, st.parse::<u16>().unwrap_or(200)),
+        None => (req_ver, 200),
+    };
+    let msg = RespMsg { version: "1.1".into(), status, reason: "OK".into(), fields: vec![("Transfer-Encoding".into(), te.as_bytes().to_vec())], body: RespBody::Chunked { coding: c.bytes.clone(), payload: c.payload.clone(), ranges: c.data_ranges.clone() } };
     let head_len = msg.head_bytes().len();
     let mut menu = Menu::default_large();
     menu.stop_boundary = stop;
@@ -81,6 +86,8 @@ fn mk_coding_req(c: crate::refmodel::chunked::Coding, first_size: usize, stop: b
 /// C07 owns the body reader: reads, body state, completion and exact consumption.
 pub fn scope(k: &str) -> bool {
     k.starts_with("read:") || k.starts_with("recv-body:") || k == "final:consumed-total" || k == "final:response-body-incomplete" || k == "no-path-to-completion" || k == "schedule-dependent-outcome" || k.starts_with("canonical:") || k.starts_with("queries:") || k.starts_with("readiness:disagrees-in-RecvBody")
+        // a chunked response whose body state is never entered is not decoded at all
+        || k.starts_with("proceed:wrong-successor-from-RecvResponse")
 }
 
 pub fn build(tier: Tier) -> Vec<Arc<ExchCfg>> {
@@ -162,6 +169,11 @@ pub fn build(tier: Tier) -> Vec<Arc<ExchCfg>> {
         // spellings of the header that announces the coding (empty list elements are ignored, RFC 9110 5.6.1)
         for te in ["Chunked", "gzip, chunked", "chunked,", "gzip,chunked, ,", ", chunked", "chunked ,\t"] {
             out.push(mk_coding_te(crate::refmodel::chunked::encode_bytes(&[(b"3".to_vec(), b"abc".to_vec())], b"0", &[b"T1: v".to_vec()]), 3, stop, 0, te));
+        }
+        // statuses other than 200 carry chunked bodies just the same (205 Reset Content included)
+        for st in ["1.1/205", "1.1/404", "1.1/203"] {
+            out.push(mk_coding_req(crate::refmodel::chunked::encode_bytes(&[(b"3".to_vec(), b"abc".to_vec())], b"0", &[]), 3, stop, 0, "chunked", st));
+            out.push(mk_coding_req(crate::refmodel::chunked::encode_bytes(&[], b"0", &[]), 0, stop, 0, "chunked", st));
         }
         // an HTTP/1.0 REQUEST answered by an HTTP/1.1 chunked response
         out.push(mk_coding_req(crate::refmodel::chunked::encode_bytes(&[(b"3".to_vec(), b"abc".to_vec()), (b"02;a=b".to_vec(), b"\r\n".to_vec())], b"0", &[b"T1: v".to_vec()]), 3, stop, 0, "chunked", "1.0"));
